@@ -109,6 +109,24 @@ func cmdCheck(argv []string) int {
 			shortFor[kf.Obligation] = true
 		}
 	}
+	// standalone lemmas (raw SMT over the prelude)
+	var lemmaRes *FuncResult
+	for _, lm := range l.specs.lemmas {
+		has := false
+		for _, p := range lm.Props {
+			if p == *prop {
+				has = true
+			}
+		}
+		if !has || (*only != "" && !strings.Contains(lm.Name, *only)) {
+			continue
+		}
+		if lemmaRes == nil {
+			lemmaRes = &FuncResult{Func: "lemmas", e: NewEngine(l.prog)}
+			results = append(results, lemmaRes)
+		}
+		lemmaRes.Obls = append(lemmaRes.Obls, &Obligation{Name: *prop + "/L2/lemma/" + lm.Name, Kind: "lemma", Func: "lemma " + lm.Name, Expect: "unsat", Goal: TFalse, Hyps: []T{{S: "true", So: SBool}}, RawSMT: lm.Body})
+	}
 	tExec := time.Since(start).Seconds()
 	reps := discharge(results, timeout, shortFor)
 	tSolve := time.Since(start).Seconds() - tExec
